@@ -172,10 +172,9 @@ Lemma established_iff_success secret e :
   let r := component_connect secret e in
   (r_err r = ErrNil <-> success e = true) /\
   (r_state r = Established <-> success e = true) /\
-  (r_recv r = true <-> success e = true) /\
-  (probe_routed r = true <-> success e = true).
+  (r_recv r = true <-> success e = true).
 Proof.
-  cbv zeta. unfold probe_routed. destruct (success e) eqn:Hs.
+  cbv zeta. destruct (success e) eqn:Hs.
   - destruct (connect_success secret e Hs) as (H1 & H2 & H3).
     rewrite H1, H2, H3. repeat split; reflexivity.
   - destruct (connect_failure secret e Hs) as ([p H1] & H2 & H3).
@@ -230,6 +229,34 @@ Proof.
   intros Hp. cbv zeta. unfold component_connect.
   destruct (e_pre e) as [| |id]; cbn; try (repeat split; fail).
   exfalso. exact (Hp id eq_refl).
+Qed.
+
+(* the StreamError text of the one event: "conflict" exactly on the stream-error branch
+   (whatever condition the server named), empty on every other path *)
+Definition event_text (e : env) : str :=
+  match e_pre e with
+  | PConnected _ =>
+      if e_write_ok e then match e_reply e with RStreamError _ => conflict | _ => [] end else []
+  | _ => []
+  end.
+
+Lemma one_event_exact secret e :
+  r_events (component_connect secret e) = [(r_state (component_connect secret e), event_text e)].
+Proof.
+  unfold component_connect, event_text. destruct (e_pre e) as [| |id]; try reflexivity.
+  destruct (e_write_ok e); cbn [negb]; [|reflexivity].
+  destruct (e_reply e); reflexivity.
+Qed.
+
+(* the outcome is a function of (transport outcome, write outcome, reply) and the secret:
+   there is no other input - in particular nothing kept from an earlier connection.  This is
+   the FORM of the model (true of the code at HEAD: a new hasher per call, a new transport
+   per Resume); that the code has this form is checked by the differential runs only. *)
+Lemma no_hidden_input secret e1 e2 :
+  e_pre e1 = e_pre e2 -> e_write_ok e1 = e_write_ok e2 -> e_reply e1 = e_reply e2 ->
+  component_connect secret e1 = component_connect secret e2.
+Proof.
+  destruct e1 as [p1 w1 r1], e2 as [p2 w2 r2]. cbn. intros -> -> ->. reflexivity.
 Qed.
 
 (* exactly one event is delivered and it carries the state Connect leaves behind *)
